@@ -166,6 +166,23 @@ def run(rep: Report, tier: str) -> None:  # noqa: C901
     # ---------------- R24.9 names ----------------
     rep.rule("R24.9", "reserved-word table covers the lexer's keywords; name-carrying fields go through the name formatter")
     _check_names(P, G, rep, S, T, NC, built)
+    # the quote flag the renderer relies on is exactly "the token was written in quotes" (evaluated): VTL's IDENTIFIER is narrower than Python's
+    fq = P.functions.get("vtlengine.AST.ASTConstructorModules.Terminals.is_quoted_identifier")
+    if fq is None:
+        raise AnalysisError("anchor vanished: Terminals.is_quoted_identifier")
+    from sa.e6 import ExternalObj as _EOq, Interp as _Iq, Raised as _Rq, Unmodelled as _Uq
+    for txt, term, want in (("'A'", True, True), ("'_T1'", True, True), ("'ÖVRIGT'", True, True), ("'X-1'", True, True), ("'total'", True, True), ("'1A'", True, True),
+                            ("A", True, False), ("'A'", False, False)):
+        ctx_ = _EOq({"children": [_EOq({"is_terminal": term, "text": txt})]})
+        try:
+            got = bool(_Iq(P).call(fq, {"ctx": ctx_}))
+        except (_Uq, _Rq) as e:
+            raise AnalysisError(f"R24.9: is_quoted_identifier outside the evaluator's language: {e}")
+        rep.instance("R24.9", f"quote-flag/{txt}/{term}", nontrivial=True)
+        if got != want:
+            rep.add(_finding("R24.9", f"quote-flag/{txt}", fq, fq.node.lineno,
+                             f"is_quoted_identifier says {got} for the {'terminal' if term else 'non-terminal'} token {txt}: the flag must be exactly `the name was written in quotes` - names "
+                             f"that VTL's IDENTIFIER rule does not admit bare (leading underscore, non-ASCII letters, leading digit) are otherwise written back unquoted and the prettified script no longer parses"))
 
     rep.assumptions = ["a grammar alternative labelled #x is served by the constructor method visitX (ANTLR convention) or by the method its ctx_id dispatch names",
                        "Python's repr(float) is the shortest round-trip digit string; Decimal(repr(x)) is exact",
